@@ -116,7 +116,7 @@ func c01CLIOne(a vh.Args, r *vh.Result, bin string, cc *c01CLICase) error {
 	}
 	args = append(args, idxFile, target)
 	cc.Args = args
-	ctx, cancel := context.WithTimeout(context.Background(), 60*time.Second)
+	ctx, cancel := context.WithTimeout(context.Background(), 20*time.Second)
 	defer cancel()
 	cmd := exec.CommandContext(ctx, bin, args...)
 	var stderr bytes.Buffer
@@ -146,7 +146,7 @@ func c01CLIOne(a vh.Args, r *vh.Result, bin string, cc *c01CLICase) error {
 	out, rerr := os.ReadFile(target)
 	switch {
 	case cc.Exit == -2:
-		r.Fail("predicate", "cli/hang", "desync extract did not return within 60 s", cc)
+		r.Fail("predicate", "cli/hang", "desync extract did not return within 20 s", cc)
 	case cc.Exit == 0 && (rerr != nil || !bytes.Equal(out, blob)):
 		cc.Note = strings.TrimSpace(stderr.String())
 		if len(cc.Note) > 300 {
@@ -179,7 +179,8 @@ func c01CLI(a vh.Args, r *vh.Result, rng *vh.Rand, n int) error {
 		r.Note("VH_DESYNC not set: CLI cases skipped")
 		return nil
 	}
-	for k := 0; k < n; k++ {
+	hangs := 0
+	for k := 0; k < n && hangs < 2; k++ {
 		c := c01Gen(rng)
 		if len(c.BlobHex) > 40000 {
 			c.BlobHex = c.BlobHex[:40000]
@@ -194,6 +195,9 @@ func c01CLI(a vh.Args, r *vh.Result, rng *vh.Rand, n int) error {
 		cc := &c01CLICase{Case: c, InPlace: rng.Chance(1, 3), PrintStats: rng.Chance(1, 2)}
 		if err := c01CLIOne(a, r, bin, cc); err != nil {
 			return err
+		}
+		if cc.Exit == -2 {
+			hangs++
 		}
 	}
 	return nil
